@@ -86,6 +86,18 @@ Definition completed_ok (ops : list wop) (r : rares) : bool :=
     end
   end.
 
+(* a read of a fully synced directory (after Close, or at a sync point) against the specification
+   of the script: metadata, exactly the entry log, exactly the last non-empty hard state *)
+Definition spec_read_ok (meta : option bytes) (ops : list wop) (r : rares) : bool :=
+  match spec_run ops with
+  | None => true
+  | Some (log, hs) =>
+    match r with
+    | RAOk m h ents _ => bytes_eqb (opt_bytes m) (opt_bytes meta) && hs_eqb h hs && ents_eqb ents log
+    | RAErr _ => false
+    end
+  end.
+
 Fixpoint bprefix (p l : bytes) : bool :=
   match p, l with
   | [], _ => true
